@@ -979,7 +979,8 @@ impl Database {
                 table.remove_index(index_name);
             }
 
-            table.drop_column(column_name);
+            // the column was found with eq_ignore_ascii_case: drop it under its catalogue name
+            table.drop_column(old_columns[drop_idx].name());
         }
 
         Ok(format!("dropped column '{}'", column_name))
